@@ -1,6 +1,7 @@
 import JV.Drv.Common
 import JV.Spec.Rfc8259
 import JV.Model.JsonEscape
+import JV.Model.JsonEncode
 namespace JV
 namespace Drv
 open Spec.Rfc8259
@@ -39,8 +40,91 @@ partial def parseFlagsGo (cs : List Char) (fl : Flags) : Flags :=
 def parseFlags (s : String) : Flags :=
   parseFlagsGo s.toList { comments := true, trailingComma := false, maxDepth := 1024 }
 
+
+/-! ### `jt dump <j|o> <opts> <wire value>`: the encoder model on the harness's own op line -/
+
+/-- wire value -> what dump sees (`Model.JsonEncode`): integers by their decimal text, bigint/bigdec-tagged strings as
+    number literals, other strings as strings; `none` for tokens outside the model's domain (doubles, halfs, byte strings, other tags) -/
+partial def readJT : List String → Option (JT × List String)
+  | [] => none
+  | tok :: rest =>
+    let (body, tag) := match tok.splitOn "@" with
+      | [b, t] => (b, t)
+      | _ => (tok, "")
+    match body.toList with
+    | ['n'] => some (.null, rest)
+    | ['t'] => some (.bool true, rest)
+    | ['f'] => some (.bool false, rest)
+    | ['['] => readElems rest []
+    | ['{'] => readMembers rest []
+    | 'i' :: cs => if tag = "" then (String.ofList cs).toInt?.map fun i => (.num ((toString i).toList.map Char.toNat), rest) else none
+    | 's' :: cs =>
+      match Wire.bytesOfHexChars cs with
+      | none => none
+      | some b => if tag = "" then some (.str b, rest) else if tag = "bigint" || tag = "bigdec" then some (.num b, rest) else none
+    | _ => none
+where
+  readElems : List String → List JT → Option (JT × List String)
+    | [], _ => none
+    | tok :: rest, acc =>
+      if tok = "]" then some (.arr acc.reverse, rest) else
+        match readJT (tok :: rest) with
+        | none => none
+        | some (x, r) => readElems r (x :: acc)
+  readMembers : List String → List (Bytes × JT) → Option (JT × List String)
+    | [], _ => none
+    | tok :: rest, acc =>
+      if tok = "}" then some (.obj acc.reverse, rest) else
+        match tok.toList with
+        | 'k' :: cs =>
+          match Wire.bytesOfHexChars cs, readJT rest with
+          | some k, some (x, r) => readMembers r ((k, x) :: acc)
+          | _, _ => none
+        | _ => none
+
+/-- `p=1,is=4,...` of harness/jtext.cpp dump_opts; `none` for a key the model does not cover (ea=1) -/
+def parseDumpOpts (spec : String) : Option (Bool × Model.JsonEncode.PrettyOpts) :=
+  (spec.splitOn ",").foldl (init := some (false, {})) fun acc kv =>
+    match acc with
+    | none => none
+    | some (p, o) =>
+      if kv = "" || kv = "-" then some (p, o) else
+      match kv.splitOn "=" with
+      | [k, v] =>
+        let n := v.toNat?.getD 0
+        if k = "p" then some (n != 0, o)
+        else if k = "is" then some (p, { o with indentSize := n % 256 })
+        else if k = "ic" then some (p, { o with indentChar := n })
+        else if k = "sc" then some (p, { o with colon := n })
+        else if k = "sm" then some (p, { o with comma := n })
+        else if k = "po" then some (p, { o with padObj := n != 0 })
+        else if k = "pa" then some (p, { o with padArr := n != 0 })
+        else if k = "rl" then some (p, { o with root := n })
+        else if k = "oo" then some (p, { o with oo := n })
+        else if k = "ao" then some (p, { o with ao := n })
+        else if k = "oa" then some (p, { o with oa := n })
+        else if k = "aa" then some (p, { o with aa := n })
+        else if k = "ll" then some (p, { o with limit := n })
+        else if k = "nl" then (Wire.bytesOfHexChars v.toList).map fun b => (p, { o with newLine := b })
+        else if k = "ea" then (if n = 0 then some (p, o) else none)
+        else if k = "es" then some (p, { o with solidus := n != 0 })
+        else none
+      | _ => none
+
+/-- answers `ok x<text> cx<compact text>` (the first and last field of the harness's answer), or `skip` outside the model's domain -/
+def dumpLine : List String → String
+  | _kind :: spec :: toks =>
+    match parseDumpOpts spec, readJT toks with
+    | some (p, o), some (v, []) =>
+      let c := Model.JsonEncode.compactS o.solidus v
+      let t := if p then Model.JsonEncode.pretty o v else c
+      "ok x" ++ Wire.hexOfBytes t ++ " cx" ++ Wire.hexOfBytes c
+    | _, _ => "skip"
+  | _ => "bad-op"
+
 /-- jt sparse <flags> x<text> -/
 def jsonTextLine : List String → String
+  | "dump" :: rest => dumpLine rest
   | ["sparse", fl, x] =>
     match hexArgX x with
     | none => "bad-op"
